@@ -97,7 +97,10 @@ def has_nel(x):
     return False
 
 
-def nm(n): return "o%d" % n
+def nm(n): return "scripts" if n == 6 else "o%d" % n          # option 6 is the one load(…, cwd) rewrites (= C44.scriptsName)
+
+
+def num(name): return 6 if name == "scripts" else int(name[1:])
 
 
 class World:
@@ -117,10 +120,10 @@ class World:
 
     def types(self):
         """declared type of every option, read from the live OptManager in its dict order"""
-        return {int(k[1:]): TYNAME[o.typespec] for k, o in self.o._options.items()}
+        return {num(k): TYNAME[o.typespec] for k, o in self.o._options.items()}
 
     def values(self):
-        return {int(k[1:]): getattr(self.o, k) for k in self.o._options}
+        return {num(k): getattr(self.o, k) for k in self.o._options}
 
     def show_store(self, vals=None, tys=None):
         vals = self.values() if vals is None else vals
@@ -148,7 +151,7 @@ class World:
         def verdict(updated):
             vals = w.values()
             tys = w.types()
-            w.calls.append({"who": lid, "updated": sorted(int(u[1:]) for u in updated), "vals": vals, "depth": w.depth, "after_reject": w.top_rejected,
+            w.calls.append({"who": lid, "updated": sorted(num(u) for u in updated), "vals": vals, "depth": w.depth, "after_reject": w.top_rejected,
                             "shown": w.show_store(vals, tys),
                             "untyped": [n for n, x in vals.items() if not conforms(tys[n], x)]})
             if holds(rule, vals, updated):
@@ -186,6 +189,10 @@ class _Attr(Exception):
     pass
 
 
+class _Other(Exception):
+    pass
+
+
 def outcome(fn):
     """run one operation; map the exceptions the property talks about to an enum"""
     try:
@@ -217,7 +224,9 @@ class Check(PropertyCheck):
                   "operation of the histories: merge_appends_sequences (None skipped, a list is the current list followed by the given "
                   "one, TypeError/AttributeError update nothing); config-file paths: optmanager.relative_path with the pathlib/posixpath "
                   "pieces it uses (PurePosixPath parsing, `/`, expanduser, absolute) transcribed and tied (driver op relpath): "
-                  "relative_path_of_absolute, relative_path_of_plain, relative_path_is_absolute; config_roundtrip_nondefault for any YAML with "
+                  "relative_path_of_absolute, relative_path_of_plain, relative_path_is_absolute; load(opts, text, cwd) is an operation of "
+                  "the histories (the rewriting of the `scripts` entry over a list / a str / None / a non-iterable, UTF-8 decoding imported "
+                  "from C35, then update_defer): load_makes_scripts_absolute, load_without_scripts, load_without_cwd; config_roundtrip_nondefault for any YAML with "
                   "parse(dump d)=d (+partial/counterexample for U+0085, F-C44b). Model tied to the real OptManager by differential "
                   "runs (every reply: outcome, every listener call at every depth with the values it saw, all option values, deferred "
                   "names; save→load values).")
@@ -230,8 +239,8 @@ class Check(PropertyCheck):
                   "guards rollback-notification-delivered / quiet / listener concerned by the outer names; accepted_update_… is stated "
                   "for listeners that only accept or reject (for acting listeners that clause is checked by the direct oracle); "
                   "deferred_spec_is_parsed_when_declared is stated from the empty manager; relative_path takes $HOME, the password database "
-                  "and os.getcwd() as parameters (the tie fixes HOME=/h/me/ and uses the entry root→/root); load(…, cwd) itself (applying "
-                  "relative_path to the `scripts` entries) is not an operation of the model; tuples are not generated for merge. known(): exact classifiers, near misses in "
+                  "and os.getcwd() as parameters (the tie fixes HOME=/h/me/ and uses the entry root→/root); the YAML parse of the config text stays the library parameter (the tie feeds load() the JSON rendering "
+                  "of the data); tuples are not generated for merge. known(): exact classifiers, near misses in "
                   "known_selftest (run in setup).")
     technique = "Lean 4 proof (induction over histories, invariants) + differential model-vs-code correspondence on a real OptManager"
     rule = ("histories of 3–16 operations over ≤6 options of the six types: declarations (some ill-typed / re-declared), "
@@ -414,6 +423,19 @@ class Check(PropertyCheck):
                 n = i if i < len(TYS) else 9
                 yield {"ops": decl6 + [{"op": "conn", "id": 1, "rule": ["never"]}, {"op": "merge", "kw": [[5, ["q", [["s", "first"]]]]]},
                                        {"op": "merge", "kw": [[n, v], [5, ["q", [["s", "more"]]]], [1, ["n"]]]}, {"op": "merge", "kw": [[n, v]]}, {"op": "save"}]}
+        # tie of the transcribed load(opts, text, cwd): `scripts` as a list / str / None / int / list with a non-str, declared as a
+        # sequence option, as another type, or not declared (deferred), next to other keys; with and without a config directory
+        svals = [["q", [["s", "a.py"], ["s", "/abs/b.py"], ["s", "~/c.py"]]], ["q", []], ["q", [["s", "x/../y"], ["i", 1]]], ["q", [["s", "~nosuchuser/z"]]],
+                 ["q", [["s", "~\x00"], ["i", 1]]], ["q", [["i", 1], ["s", "~\x00"]]], ["s", "ab/"], ["s", ""], ["n"], ["i", 3], ["b", True], ["o"],
+                 ["q", [["s", "\u00e9 x.py"], ["s", "//srv/s.py"], ["s", "."], ["s", ""]]]]
+        for sty in ("seqstr", "str", None):
+            for sv in svals:
+                for cwd in (None, "/etc/mitm", "conf/d", ""):
+                    pre = [{"op": "add", "n": 0, "ty": "int", "v": ["i", 0]}] + ([{"op": "add", "n": 6, "ty": sty, "v": self._dflt2(sty)}] if sty else [])
+                    yield {"ops": pre + [{"op": "conn", "id": 1, "rule": ["never"]},
+                                         {"op": "load", "cwd": cwd, "data": [[0, ["i", 5]], [6, sv], [3, ["s", "later"]]]},
+                                         {"op": "load", "cwd": cwd, "data": [[6, sv]]}, {"op": "load", "cwd": cwd, "data": [[0, ["s", "bad"]], [6, sv]]},
+                                         {"op": "load", "cwd": cwd, "data": []}, {"op": "save"}]}
         # tie of the transcribed relative_path / pathlib pieces (no oracle clause)
         for rel in REL_DIRS:
             yield {"ops": [{"op": "relpath", "rel": rel, "path": pth} for pth in REL_PATHS]}
@@ -480,6 +502,19 @@ class Check(PropertyCheck):
                 out, exc = outcome(lambda: fn(**kw))
             rec["assigned"] = sorted(n for n, _ in op["kw"] if n in pre)
             rec["want"] = {n: py(v) for n, v in op["kw"] if n in pre}
+        elif k == "load":
+            # tie of the transcribed load(opts, text, cwd): the text is the JSON (= YAML) rendering of the data
+            text = json.dumps({nm(n): py(v) for n, v in op["data"]})
+            if len({n for n, _ in op["data"]}) != len(op["data"]): raise Skip()
+
+            def go():
+                try: optmanager.load(o, text, cwd=op["cwd"])
+                except ValueError: raise _Other("ValueError")
+                except RuntimeError: raise _Other("RuntimeError")
+            try:
+                out, exc = outcome(go)
+            except _Other as e:
+                out, exc = e.args[0], None
         elif k == "merge":
             # tie of the transcribed OptManager.merge (command-line values: None skipped, lists appended)
             kw = {nm(n): py(v) for n, v in op["kw"]}
@@ -527,7 +562,7 @@ class Check(PropertyCheck):
         })
         rec.pop("want", None)
         obs = "/".join("%d@%s@%s" % (c["who"], "+".join(map(str, c["updated"])), c["shown"]) for c in w.calls) or "-"
-        rec["reply"] = "%s %s %s %s" % (out, obs, rec["post"], ",".join(k2[1:] for k2 in o.deferred) or "-")
+        rec["reply"] = "%s %s %s %s" % (out, obs, rec["post"], ",".join(str(num(k2)) for k2 in o.deferred) or "-")
         return rec
 
     def _save(self, w, pre, pre_shown):
@@ -563,7 +598,8 @@ class Check(PropertyCheck):
                 for l in r["lost"]:
                     fails.append("roundtrip@%d#%d: option %d not reproduced after save/load: %r came back as %r" % (i, l["n"], l["n"], l["want"], l["got"]))
                 continue
-            if r["out"] not in ("ok", "TypeError", "OptionsError", "KeyError") and not (k == "merge" and r["out"] == "AttributeError"):
+            if r["out"] not in ("ok", "TypeError", "OptionsError", "KeyError") and not (k == "merge" and r["out"] == "AttributeError") \
+                    and not (k == "load" and r["out"] in ("ValueError", "RuntimeError")):
                 fails.append("op %d: unexpected outcome %s" % (i, r["out"]))
             # "options only ever hold values of their declared type"
             if r["untyped"]: fails.append("typed: op %d leaves options %s holding a value outside the declared type" % (i, r["untyped"]))
@@ -732,6 +768,10 @@ class Check(PropertyCheck):
             elif k in ("upd", "updk", "updd"):
                 if len({n for n, _ in op["kw"]}) != len(op["kw"]): raise Skip()
                 lines.append("%s %s" % (k, ";".join("%d=%s" % (n, wire_val(v)) for n, v in op["kw"]) or "-"))
+            elif k == "load":
+                if len({n for n, _ in op["data"]}) != len(op["data"]): raise Skip()
+                lines.append("load %s %s %s" % ("none" if op["cwd"] is None else cps(op["cwd"]), cps(os.getcwd()),
+                                                ";".join("%d=%s" % (n, wire_val(v)) for n, v in op["data"]) or "-"))
             elif k == "merge":
                 if len({n for n, _ in op["kw"]}) != len(op["kw"]): raise Skip()
                 lines.append("merge %s" % (";".join("%d=%s" % (n, wire_val(v)) for n, v in op["kw"]) or "-"))
